@@ -40,7 +40,8 @@ def templates(ctx):
             # the database search behind unit products / quotients: whatever it returns has the dimension and (within the crate's own
             # tolerance) the scale that was asked for - symbolic dimension and scale over the real generated table
             {'name': 'match-units', 'mode': 'match', 'max_steps': 4000000}] + \
-           [{'name': 'muldiv-%s-%s-%s' % (op, a, b), 'mode': 'muldiv', 'op': op, 'a': a, 'b': b, 'max_steps': 4000000} for a, b, op in MULDIV_PAIRS]
+           [{'name': 'muldiv-%s-%s-%s' % (op, a, b), 'mode': 'muldiv', 'op': op, 'a': a, 'b': b, 'max_steps': 4000000} for a, b, op in MULDIV_PAIRS] + \
+           [{'name': 'num-%s-%s-%s' % (op, a, b), 'mode': 'nummuldiv', 'op': op, 'a': a, 'b': b, 'max_steps': 8000000} for a, b, op in NUM_PAIRS]
 
 
 # pairs of database units whose product / quotient has a same-named unit in the table or none at all: whatever the operator
@@ -50,9 +51,31 @@ MULDIV_PAIRS = [('pound', 'square_inch', 'div'), ('foot', 'pounds_per_second', '
                 ('gram', 'kilogram', 'div'), ('volt', 'ampere', 'mul'), ('kilogram', 'cubic_meter', 'div'), ('ampere', 'foot', 'div')]
 
 
+# Number * Number and Number / Number: the unit of the result is the unit operator's answer for the two units (an error
+# when that is an error), the other operand's unit when one side has none; the value is the product / quotient.  Pairs of
+# one dimension (different scale / offset / none) are included: their quotient is not a plain ratio.
+NUM_PAIRS = [('kilowatt', 'hour', 'mul'), ('meter', 'second', 'div'), ('kilometer', 'meter', 'div'), ('celsius', 'kelvin', 'div'),
+             ('meter', 'meter', 'div'), ('us_dollar', 'euro', 'div'), ('kilometer', 'meter', 'mul'), ('gram', 'kilogram', 'div')]
+
+
 def path(ex, t):
     prog = ex.prog
     ut = prog.canon_type('units::unit::Unit')
+    if t['mode'] == 'nummuldiv':
+        from mirsym.hv import HV
+        h = HV(ex)
+        nt = prog.canon_type('val::number::Number')
+        a = h.unit(t['a']); b = h.unit(t['b'])
+        if not isinstance(a, Ptr): a = Ptr(Cell(a))
+        if not isinstance(b, Ptr): b = Ptr(Cell(b))
+        shape = ex.pick(3)      # 0: both have a unit, 1: left unit-less, 2: right unit-less
+        x = z3.FP('x', F64); y = z3.FP('y', F64)
+        tr = {'mul': 'Mul', 'div': 'Div'}[t['op']]
+        ex.side['in'] = {'a': a, 'b': b, 'x': x, 'y': y, 'shape': shape}
+        rn = ex.call_body(prog.find_method(nt, tr, t['op']), [Agg(nt, 0, [x, none() if shape == 1 else some(a)]), Agg(nt, 0, [y, none() if shape == 2 else some(b)])])
+        ex.side['rn'] = rn
+        cands = [k for k in prog.impl_methods if k[1] == tr and k[2] == t['op'] and 'Unit' in k[0]]
+        return ex.call_body(prog.impl_methods[cands[0]][0][0], [a, b])
     if t['mode'] == 'convert':
         a, ma = mk_unit(ex, 'a'); b, mb = mk_unit(ex, 'b')
         x = z3.FP('x', F64)
@@ -225,6 +248,22 @@ def post(ex, t, r):
             s['result'] = nu
             if du != want_d or not close: viol = 'result-of-another-dimension-or-scale'; s['detail2'] = '%s %s %s = %s with dims %s scale %r, expected dims %s scale %r' % (na, t['op'], nb, nu, du, su, want_d, want_s)
         else: s['result'] = None
+    if r.kind == 'ok' and t['mode'] == 'nummuldiv':
+        def UN(p):
+            u = p
+            while isinstance(u, Ptr): u = ex.load(u)
+            return bytes(deref(ex, u.fields[1]).items[0].items).decode()
+        rn = ex.side['rn']; sh = I['shape']
+        want = (UN(r.value.fields[0]) if r.value.variant == 0 else 'ERR') if sh == 0 else (UN(I['b']) if sh == 1 else UN(I['a']))
+        if rn.variant != 0: got = 'ERR'
+        else:
+            n = deref(ex, rn.fields[0]); uo = deref(ex, n.fields[1])
+            got = None if uo.variant == 0 else UN(uo.fields[0])
+            val = n.fields[0]; ref = z3.fpMul(RNE, I['x'], I['y']) if t['op'] == 'mul' else z3.fpDiv(RNE, I['x'], I['y'])
+            bad = z3.And(z3.Not(z3.fpIsNaN(ref)), z3.Not(z3.fpEQ(val, ref))) if is_sym(val) else z3.BoolVal(True)
+            if ex.sat(bad) is not None: viol = 'value-is-not-the-%s' % ('product' if t['op'] == 'mul' else 'quotient'); cond = bad
+        s['result'] = got; s['want'] = want
+        if viol is None and got != want: viol = 'unit-of-result'; s['detail2'] = '%s %s %s (operands %s): result unit %s, the unit operator gives %s' % (t['a'], t['op'], t['b'], ['both with units', 'left unit-less', 'right unit-less'][sh], got, want)
     if r.kind == 'ok' and t['mode'] == 'unitop':
         if r.value.variant == 0: viol = 'dimensionless-accepted'
     if r.kind == 'panic': viol = 'panic'
@@ -250,6 +289,9 @@ def post(ex, t, r):
         if r.kind == 'ok': s['result'] = None if r.value.variant == 1 else f2bits(cz.c(r.value.fields[0].fields[0]))
     elif t['mode'] == 'muldiv':
         s['native_case'] = {'api': 'unit_muldiv', 'a': t['a'], 'b': t['b'], 'op': t['op']}
+    elif t['mode'] == 'nummuldiv':
+        s['native_case'] = {'api': 'number_muldiv', 'a': None if I['shape'] == 1 else t['a'], 'b': None if I['shape'] == 2 else t['b'], 'ua': t['a'], 'ub': t['b'], 'op': t['op'],
+                            'x': f2bits(cz.c(I['x'])), 'y': f2bits(cz.c(I['y']))}
     elif t['mode'] == 'match':
         dv = [cz.c(x) for x in I['dims']]; dv = [x - 256 if x >= 128 else x for x in dv]
         s['native_case'] = {'api': 'match_units', 'dims': dv, 'scale': f2bits(cz.c(I['scale']))}
@@ -288,6 +330,20 @@ def run(ctx):
                 validated += 1
                 if s.get('viol'):
                     ctx.report('units.muldiv:%s' % s['viol'], s.get('detail2', s['template']) + ' (native: %s)' % json.dumps(o)[:200], case=s['native_case'])
+                continue
+            if s['kind'] == 'ok' and s['mode'] == 'nummuldiv':
+                o = n['ok']
+                if o['number'] != s.get('result'):
+                    mism += 1; print('MODEL-MISMATCH %s: mirsym %s native %s' % (s['template'], s.get('result'), o)); continue
+                validated += 1
+                # the verdict is taken on the native answers alone
+                c = s['native_case']; nwant = o['unit_op'] if (c['a'] and c['b']) else (c['b'] or c['a'])
+                if o['number'] != nwant:
+                    ctx.report('units.number-muldiv:unit-of-result:%s' % s['template'], '%s (native: %s)' % (s.get('detail2', s['template']), json.dumps(o)[:200]), case=c)
+                elif o['number'] != 'ERR' and not o['value_ok']:
+                    ctx.report('units.number-muldiv:value:%s' % s['template'], 'the value of %s is not the product / quotient (native: %s)' % (json.dumps(c), json.dumps(o)[:200]), case=c)
+                elif s.get('viol'):
+                    mism += 1; print('MODEL-MISMATCH %s: mirsym verdict %s not confirmed natively %s' % (s['template'], s['viol'], o))
                 continue
             if s['kind'] == 'ok' and s['mode'] == 'match':
                 nn = sorted(set(x['name'] for x in n['ok']))
